@@ -12,7 +12,7 @@ from vmon import gen, runchecks, runs
 from vmon.core import case_hash
 
 RULE = (
-    "all nine algorithms (11 variants with both confidence types) x cone families incl. K>m facets x batch sizes "
+    "all nine algorithms (12 variants with both confidence types, VOGP_AD on user-defined continuous problems) x cone families incl. K>m facets x batch sizes "
     "{1,2,3,5,8, > active set, > K} x costs/budgets (incl. budget hit mid-run) x K=1..16 x m=2..3 x stub posterior "
     "modes / controlled and real observations; every prefix of every run is checked; three extra steps after "
     "completion. One event per step. distinct = (case seed, step); non-trivial = the step sampled or changed S."
@@ -22,7 +22,7 @@ ASSUMPTIONS = ["GP algorithms use a stub posterior in place of the trained GP in
 N = {"quick": 170, "thorough": 6000}
 REQUIRE = {"quick": {"runs": 150, "steps_checked": 1500, "completions": 100, "post_completion_steps": 300, "sampling_steps": 1000,
                      "batch_gt_active_runs": 15, "cost_steps": 100, "budget_terminations": 3, "Kgtm_runs": 10,
-                     "variants_run": 11}}
+                     "variants_run": 11, "vogp_ad_runs": 10}}
 TIMEOUT = {"quick": 1500, "thorough": 7200}
 ALL = ["PaVeBa", "PaVeBaGP-IH", "PaVeBaGP-DE", "PartialGP-rect", "PartialGP-ell", "VOGP", "EpsilonPAL", "Auer", "Auer-emp",
        "NaiveElimination", "DecoupledGP"]
@@ -32,6 +32,8 @@ def make(rng, variant):
     over = {}
     info = runs.VARIANTS[variant]
     over["K"] = int(rng.choice([1, 2, 3, 4, 5, 6, 8, 12, 16], p=[.1, .1, .15, .15, .15, .1, .1, .1, .05]))
+    if info.get("shape") == "ell":
+        over["K"] = min(over["K"], 8)  # ellipsoid predicates are SOCPs (~9 ms each): keep runs short
     if info.get("batch"):
         over["batch"] = int(rng.choice([1, 2, 3, 5, 8, over["K"] + 1, 2 * over["K"] + 3]))
     if variant in ("PaVeBaGP-IH", "PartialGP-rect"):
@@ -89,6 +91,23 @@ def directed(mon):
         case["max_rounds"] = 60
         run_and_check(mon, case, order, variant)
         mon.count("batch_gt_active_runs")
+    # K2: VOGP_AD on a 1-D domain
+    case, order = runs.make_ad_case(rng, d=1, m=2)
+    tr = runs.run_ad_case(case, order, mon)
+    mon.count("runs")
+    runchecks.check_accounting(mon, tr)
+
+
+def ad_run(mon, rng):
+    case, order = runs.make_ad_case(rng)
+    case["max_rounds"] = 100
+    tr = runs.run_ad_case(case, order, mon)
+    mon.count("runs")
+    mon.count("vogp_ad_runs")
+    if tr.ctor_crash:
+        mon.violation(f"crash:ctor:{type(tr.crashed).__name__}:VOGP_AD", f"VOGP_AD/{case['cone']}: constructor raised {tr.crashed!r}", runs.case_public(case))
+        return
+    runchecks.check_accounting(mon, tr)
 
 
 def shard(mon, tier, rng, shard_no, nshards):
@@ -96,6 +115,7 @@ def shard(mon, tier, rng, shard_no, nshards):
     seen = set()
     if shard_no == 0:
         directed(mon)
+    ad_run(mon, rng)
     for it in range(n):
         variant = ALL[(it + shard_no) % len(ALL)]
         case, order = make(rng, variant)
